@@ -2803,8 +2803,11 @@ public:
       auto token = instr->getToken();
       switch (token) {
       case hexasm::Token::SP_VALUE: {
-        // SP value.
-        cb.genInstrData(MAX_ADDRESS - cg.getGlobalsOffset() - 1);
+        // SP value. Leave room above the initial stack pointer for the words
+        // sp[1] and sp[2] (return value and first actual) that the exit stub
+        // and 'stop' in a frameless main address, so that they stay below the
+        // arrays and inside memory.
+        cb.genInstrData(MAX_ADDRESS - cg.getGlobalsOffset() - 1 - FB_PARAM_OFFSET_FUNC);
         // Emit data directives for globals, constants and strings.
         for (auto &data : cg.getCodeBuffer().getData()) {
           cb.insertInstr(std::move(data));
@@ -3034,7 +3037,7 @@ public:
     auto stackPointer = dynamic_cast<hexasm::Data*>(directives[1].get())->getValue();
     outs << boost::format("Memory range 0x%x - 0x%x\n") % 0 % MAX_ADDRESS;
     outs << boost::format("Stack pointer initialised to 0x%x\n") % stackPointer;
-    outs << boost::format("Arrays allocated 0x%x - 0x%x\n") % (stackPointer+1) % MAX_ADDRESS;
+    outs << boost::format("Arrays allocated 0x%x - 0x%x\n") % (stackPointer+1+FB_PARAM_OFFSET_FUNC) % MAX_ADDRESS;
     outs << "\n";
   }
   void visitPre(Proc &proc) {
